@@ -110,6 +110,47 @@ func c16CheckOrf(c *mc.Ctx, cs c16Case) {
 	}
 }
 
+// c16CheckUnmod (kind "unmod"): sequences holding symbols the ORF oracle does not interpret (U, lower case,
+// X, N, ?): only the clause "the input sequences are not modified" is judged, for the ORF search on both
+// strands and for Phase without a reference.
+func c16CheckUnmod(c *mc.Ctx, cs c16Case) {
+	c.Eval()
+	viol := func(op, desc string) {
+		c.Violation("C16/"+op+"/input-modified/unusual-symbols", fmt.Sprintf("%s: case %s", desc, jsonStr(cs)), cs)
+	}
+	sb, err := mkSeqBag(align.NUCLEOTIDS, namedRows(cs.Seqs...))
+	if err != nil {
+		c.Fatal("%v", err)
+		return
+	}
+	before := readRows(sb)
+	if pn, msg := mc.Guard(func() { sb.LongestORF(cs.Reverse) }); pn {
+		c.Violation("C16/bagorf/panic/"+mc.PanicSite(msg), msg+": case "+jsonStr(cs), cs)
+		return
+	}
+	if !sameRows(before, readRows(sb)) {
+		viol("bagorf", fmt.Sprintf("sequences after LongestORF(%v): %v", cs.Reverse, readRows(sb)))
+		return
+	}
+	c.Mark(cs)
+	if pn, msg := mc.Guard(func() {
+		ph := c16Phaser(cs)
+		if ch, err := ph.Phase(nil, sb); err == nil {
+			for range ch {
+			}
+		}
+	}); pn {
+		c.Violation("C16/phase/panic/"+mc.PanicSite(msg), msg+": case "+jsonStr(cs), cs)
+		return
+	}
+	if !sameRows(before, readRows(sb)) {
+		viol("phase", fmt.Sprintf("sequences after Phase without reference: %v", readRows(sb)))
+		return
+	}
+	c.Outcome("unmod:ok")
+	c.Nontrivial(fmt.Sprintf("unmod|%v|%v", cs.Seqs, cs.Reverse))
+}
+
 func c16CheckBagOrf(c *mc.Ctx, cs c16Case) {
 	c.Eval()
 	viol := func(clause, desc string) {
@@ -793,6 +834,34 @@ func c16Tasks(tier string) []mc.Task {
 			}})
 		}
 	}
+	// unusual symbols: inputs are left as they were.  Every sequence ATG+x+TAA / its reverse complement with x
+	// over {A,U,c,X,N,?}^(0..3), alone and next to an ordinary ORF, both strand settings
+	ts = append(ts, mc.Task{Name: "unmod#symbols", Run: func(c *mc.Ctx) {
+		forEachString("AUcXN?", 0, 3, func(x []byte) bool {
+			for _, core := range []string{"ATG" + string(x) + "TAA", "UUA" + string(x) + "CAU", "aug" + string(x) + "uaa"} {
+				for _, set := range [][]string{{core}, {"CC" + core + "G", "ATGCCCTGA"}} {
+					for _, rev := range []bool{false, true} {
+						c16CheckUnmod(c, c16Case{Kind: "unmod", Seqs: set, Reverse: rev, Translate: true, Code: align.GENETIC_CODE_STANDARD, Cpus: 1})
+					}
+				}
+			}
+			return !c.Expired()
+		})
+	}})
+	// translate off / on under the three genetic codes: a reference whose codons read differently
+	// (ATA, AGA, TGA): the reported amino acids are the translation of the reported codons under that code
+	ts = append(ts, mc.Task{Name: "phase#codes", Run: func(c *mc.Ctx) {
+		const ref = "ATGATAAGATGGTGACCCTAA"
+		for _, f5 := range []string{"", "C", "CC"} {
+			for _, code := range geneticCodes {
+				for _, tr := range []bool{false, true} {
+					for _, ce := range []bool{false, true} {
+						c16CheckPhase(c, c16Case{Kind: "phase", Seqs: []string{f5 + ref + "G"}, Orf: ref, Translate: tr, CutEnd: ce, Code: code, Cpus: 1})
+					}
+				}
+			}
+		}
+	}})
 	// --- Phase input part
 	for ri, ref := range c16Refs {
 		ref := ref
@@ -875,7 +944,7 @@ func init() {
 		Level: "model_checking",
 		Rule: "schedule part: stateless DFS over all interleavings of the real Phase goroutines (sequence producer, cpus workers, closer, consuming harness thread) with iterative preemption bounds 0..2 (quick) / 0..3 (thorough), 3 sequences x cpus 1..3 x {translate, nt}; error path with an untranslatable sequence in each position; no reference + a sequence without similarity. " +
 			"function-entry part: 2 sequences, 2 workers, translate on/off, every function entry of goalign (functions of >= 4 statements) an additional scheduling point, preemption bound 1. " +
-			"input part: LongestORF on all sequences of length <=9 (quick) / <=11 (thorough) over {A,T,G,C} plus a family of overlapping-frame sequences (upper/lower case, U) and every concatenation of up to 7 (thorough 8) codon tokens from {ATG,TAA,TGA,AAA,C} against a brute-force scan; SeqBag.LongestORF on pairs; Phase on ORF copies with 5 five-prime flanks x (exact | 18 single substitutions | reverse complement) x 3 three-prime flanks, alone / with a no-similarity sequence / in a set of 3, x translate x reverse x cut-end x genetic codes x reference supplied or not; two references in both orders against sequences that open with a 5'-truncated piece of one and contain the other verbatim (and truncated piece forward + whole ORF on the reverse strand). " +
+			"input part: LongestORF on all sequences of length <=9 (quick) / <=11 (thorough) over {A,T,G,C} plus a family of overlapping-frame sequences (upper/lower case, U) and every concatenation of up to 7 (thorough 8) codon tokens from {ATG,TAA,TGA,AAA,C} against a brute-force scan; SeqBag.LongestORF on pairs; inputs unmodified by the ORF search (both strands) and by Phase without reference on sequences holding U, lower case, X, N, ? ; a reference with codons that read differently under the three codes x translate on/off; Phase on ORF copies with 5 five-prime flanks x (exact | 18 single substitutions | reverse complement) x 3 three-prime flanks, alone / with a no-similarity sequence / in a set of 3, x translate x reverse x cut-end x genetic codes x reference supplied or not; two references in both orders against sequences that open with a 5'-truncated piece of one and contain the other verbatim (and truncated piece forward + whole ORF on the reverse strand). " +
 			"distinct_nontrivial counts distinct (case, schedule) executions plus input cases whose result was fully compared.",
 		Assumptions: []string{
 			"results flagged Removed (discarded by the cut-offs) are only counted, their framing is not compared",
@@ -892,6 +961,8 @@ func init() {
 			switch cs.Kind {
 			case "orf":
 				c16CheckOrf(c, cs)
+			case "unmod":
+				c16CheckUnmod(c, cs)
 			case "bagorf":
 				c16CheckBagOrf(c, cs)
 			case "phase":
